@@ -296,6 +296,8 @@ def _worker(args):
     try:
         meta = {"profile": profile_name, "seed": seed, "mode": profile.get("_mode", {}), "quiesce": profile.get("quiesce", False),
                 "tier": os.environ.get("VERIF_TIER_EFFECTIVE", "quick")}
+        if profile.get("_impl_only"):
+            meta["impl_only"] = True
         if profile.get("_special"):
             if profile.get("_exhaustive"):
                 profile = dict(profile, _index=idx)
@@ -307,7 +309,7 @@ def _worker(args):
             gp.setdefault("period", info()["periodTicks"])            # the generator places sweeps and absences
             gp.setdefault("expiration", info()["expirationTicks"])    # relative to the CURRENT constants of /repo
             history = gen.generate(seed, **gp)
-        if (idx < 12 and not profile.get("_special")) or (idx < 2 and profile.get("_special") and not profile.get("_exhaustive") and profile.get("_special") != "bulk"):
+        if (idx < 12 and not profile.get("_special")) or (idx < 2 and profile.get("_special") and not profile.get("_exhaustive") and not str(profile.get("_special")).startswith("bulk")):
             r, hit = _trace_lines(lambda: run_history(pid, history, meta))
             r["lines"] = sorted(hit)
         else:
@@ -351,6 +353,8 @@ def shrink_history(pid, history, meta, pred):
     def still(h):
         r = run_history(pid, h, meta)
         return pred(r)
+    if len(history) > 1500:
+        return history          # a bulk history (thousands of operations): reported as it is
     try:
         return corr.shrink(history, still, budget=150)
     except Exception:
@@ -364,7 +368,7 @@ def amplify_search(pid, bases, meta):
     from props import info
     seen = []
     for base in bases:
-        if base in seen:
+        if base in seen or len(base) > 1500:      # (a bulk history is reported as it is)
             continue
         seen.append(base)
         try:
